@@ -13,7 +13,7 @@
 (*   F4  nested quantified groups (nested empty loops)                                              *)
 (*   F5  character sets: all lists of one / two ranges over the set alphabet, both polarities       *)
 (*   F6  (Deep = TRUE) three-term concatenations and two-level groups                               *)
-(* Wide = FALSE shrinks the component sets of F2 and F5 (quick tier).                               *)
+(* Wide = FALSE shrinks the component sets of F2, F3 and F5 (quick tier).                           *)
 (* Every tree is written in the styles of Styles.                                                   *)
 (***************************************************************************************************)
 EXTENDS Regex, Json, IOUtils, TLC, SequencesExt
@@ -33,7 +33,7 @@ Literals == {Chr(c, FALSE) : c \in PlainChars} \cup {Chr(c, TRUE) : c \in Encode
 Quantifiers == {NoQ, Q(0, 1, FALSE), Q(0, Unbounded, FALSE), Q(1, Unbounded, FALSE), Q(2, 2, FALSE), Q(1, 2, FALSE),
                 Q(2, Unbounded, FALSE), Q(0, 0, FALSE), Q(0, 2, FALSE), Q(1, 1, FALSE), Q(10, 11, FALSE),
                 Q(0, 1, TRUE), Q(0, Unbounded, TRUE), Q(1, Unbounded, TRUE), Q(1, 2, TRUE)}
-FewQuantifiers == {NoQ, Q(0, Unbounded, FALSE), Q(1, 2, FALSE), Q(1, Unbounded, TRUE)}
+FewQuantifiers == {NoQ, Q(0, Unbounded, FALSE), Q(1, 2, TRUE)} \cup (IF Wide THEN {Q(1, 2, FALSE), Q(1, Unbounded, TRUE)} ELSE {})
 LoopQuantifiers == {Q(0, Unbounded, FALSE), Q(1, Unbounded, FALSE), Q(0, 1, FALSE), Q(2, 2, FALSE), Q(1, 2, FALSE)}
 
 \* F5: sets
@@ -54,7 +54,7 @@ FewSets == {CSet(FALSE, <<Rng(Chr(cA, FALSE), Chr(cC, FALSE))>>), CSet(TRUE, <<S
             CSet(FALSE, <<Single(Chr(cDash, FALSE)), Rng(Chr(cEacute, TRUE), Chr(cLatinExt, TRUE))>>)}
 
 F1 == {OneTerm(Term(v, q)) : v \in Literals \cup {Dot} \cup FewSets, q \in Quantifiers}
-F5 == {OneTerm(Term(v, q)) : v \in Sets, q \in {NoQ, Q(1, Unbounded, FALSE)}}
+F5 == {OneTerm(Term(v, q)) : v \in Sets, q \in {NoQ} \cup (IF Wide THEN {Q(1, Unbounded, FALSE)} ELSE {})}
 
 \* F2: pairs
 FewAtoms == {Chr(cA, FALSE), Chr(cAstral, FALSE), Chr(cRBrace, FALSE), Chr(cLBrace, TRUE), Dot}
@@ -67,8 +67,8 @@ F2 == {OneCat(<<t1, t2>>) : t1 \in FewTerms, t2 \in FewTerms}
 tA == Term(Chr(cA, FALSE), NoQ)
 tB == Term(Chr(cB, FALSE), NoQ)
 tAstar == Term(Chr(cA, FALSE), Q(0, Unbounded, FALSE))
-SmallCats == {Cat(<<>>), Cat(<<tA>>), Cat(<<tB>>), Cat(<<tA, tB>>), Cat(<<tAstar>>), Cat(<<Term(Start, NoQ), tA>>),
-              Cat(<<tA, Term(End, NoQ)>>)}
+SmallCats == {Cat(<<>>), Cat(<<tA>>), Cat(<<tA, tB>>), Cat(<<tAstar>>), Cat(<<Term(Start, NoQ), tA>>)}
+             \cup (IF Wide THEN {Cat(<<tB>>), Cat(<<tA, Term(End, NoQ)>>)} ELSE {})
 SmallAlts(n) == UNION {{Alt(cs) : cs \in [1..m -> SmallCats]} : m \in 1..n}
 F3top == SmallAlts(3) \cup {Alt(<<>>)}
 F3grp == {OneTerm(Term(Group(a), q)) : a \in SmallAlts(2), q \in {NoQ} \cup LoopQuantifiers}
